@@ -5,9 +5,18 @@ manifest.d/not_applicable.json (or a default 'not yet claimed')."""
 import json, os, glob
 root = os.path.dirname(os.path.dirname(os.path.abspath(__file__)))
 props = [json.loads(l)["id"] for l in open(os.path.join(root, "properties.jsonl"))]
+CATS = ["exploration", "fault_enumeration", "model_checking", "proof", "translation_validation", "other"]
+enabled_file = os.path.join(root, "manifest.d", "enabled.txt")
+enabled = set(open(enabled_file).read().split()) if os.path.exists(enabled_file) else None
 checks = {}
 for f in sorted(glob.glob(os.path.join(root, "manifest.d", "C*.json"))):
     c = json.load(open(f))
+    if enabled is not None and c["property_id"] not in enabled:
+        continue   # fragment present but the check is not yet released by the lead
+    cat = c["level_claimed"]["category"]
+    if cat not in CATS:
+        c["level_claimed"]["text"] = "[%s] %s" % (cat, c["level_claimed"]["text"])
+        c["level_claimed"]["category"] = "proof" if cat.startswith("proof") else "other"
     checks[c["property_id"]] = c
 na_file = os.path.join(root, "manifest.d", "not_applicable.json")
 na_reasons = json.load(open(na_file)) if os.path.exists(na_file) else {}
